@@ -125,3 +125,56 @@ def c02(prop, tier):
             tot[k] += len(res['violations']) if k == 'violations' else (res.get('stats', {}).get('drift', 0) if k == 'drift' else res.get(k, 0))
     log('  system: %(behaviours)d behaviours, %(steps)d steps, %(comparisons)d comparisons, %(violations)d violations, drift %(drift)d' % tot)
     return ck.finish()
+
+
+# ---------------------------------------------------------------------------
+# C18: close and drop
+
+def lc_cfg():
+    return ('Lifecycle.cfg', '''SPECIFICATION Spec
+CONSTANTS CloseKinds = {"store", "store-twice", "instance", "instance-twice", "drop"}
+  PostOps = {"put", "get", "load", "sync", "close", "drop", "subscribe"}
+INVARIANTS NothingLeftRunning DataSurvives
+CHECK_DEADLOCK FALSE
+''')
+
+
+def c18(prop, tier):
+    import os
+    ck = Check(prop, tier)
+    thorough = tier == 'thorough'
+    ck.rule = ('moments of spec/Lifecycle.tla (writer at append|persist|index|emit, replication waiting for a slot|fetching|fetched|joining|'
+               'indexed|persisted, load at its head) reached on a real instance with on-disk LevelDB directories by gates; then Close, '
+               'Close twice, instance Close (once, twice) or Drop; goroutines started since the store was opened are identified by id and '
+               'must be gone; operations after close run under a watchdog; the directory is reopened; a sibling database is checked; '
+               'non-trivial = moment with at least one activity in flight')
+    r = vlib.tlc_check('Lifecycle.tla', lc_cfg(), 'C18-small')
+    ck.require_model_ok(r, 'Lifecycle: moments x close kinds x later operations')
+    sims, _ = vlib.tlc_simulate('Lifecycle.tla', lc_cfg(), 'C18-sim', 400 if thorough else 60, 22, SEED)
+    # keep one behaviour per (moment, close kind); behaviours that never close are of no use
+    seen, bs = set(), []
+    for b in sims:
+        last = b['steps'][-1]['state']
+        if last['kind'] == 'none':
+            continue
+        key = (last['w'], last['r'], last['l'], last['kind'])
+        if key in seen:
+            continue
+        seen.add(key)
+        bs.append(b)
+        if last['w'] > 1 or last['r'] > 1 or last['l'] > 1:
+            ck.distinct.add(key)
+    bs = bs[:(200 if thorough else 28)]
+    tmp = os.path.join(vlib.WORK, 'tmp')
+    os.makedirs(tmp, exist_ok=True)
+    inp = {'property': prop, 'seed': SEED, 'tmp_dir': tmp, 'behaviours': bs}
+    res = vlib.run_vh('lifecycle', inp, tag='C18', timeout=900 if not thorough else 3000)
+
+    def payload(v):
+        b = [x for x in bs if x['id'] == v['behaviour']]
+        return {'command': 'lifecycle', 'input': dict(inp, behaviours=b), 'violation': v}
+    ck.add_harness(res, payload, 'lifecycle')
+    if not res.get('inconclusive') and not res.get('crashed'):
+        ck.traces_validated += res.get('behaviours', 0)
+    log('  lifecycle: %d moments, %d comparisons, %d violations' % (res.get('behaviours', 0), res.get('comparisons', 0), len(res['violations'])))
+    return ck.finish()
